@@ -34,8 +34,8 @@ type c15Scn struct {
 	Choices  []int  `json:"choices,omitempty"`
 }
 
-var c15Calls = []string{"N0CALL", "n0call-10", "A", "", "with space inside", "ünï", strings.Repeat("X", 200)}
-var c15Passwords = []string{"CMSTelnet", "p w", "", "ünï", strings.Repeat("p", 200), "x", "secret"}
+var c15Calls = []string{"N0CALL", "n0call-10", "A", "", "with space inside", "ünï", strings.Repeat("X", 200), "LA5%NTA", "%s", "N0CALL-50%"}
+var c15Passwords = []string{"CMSTelnet", "p w", "", "ünï", strings.Repeat("p", 200), "x", "secret", "100%", "%d%v", "%"}
 
 func c15Payload(i int) []byte {
 	switch i {
@@ -45,6 +45,10 @@ func c15Payload(i int) []byte {
 		return []byte("Z")
 	case 2:
 		return []byte("[WL2K-5.0-B2FWIHJM$]\r;FW: N0CALL\r; N0X DE N0Y (AA00aa)>\r")
+	case 4: // starts with a line feed
+		return []byte("\n[WL2K-5.0-B2FWIHJM$]\r")
+	case 5:
+		return []byte("\r\n\r\n \t\x00payload after blank lines")
 	default:
 		b := make([]byte, 256)
 		for k := range b {
@@ -172,6 +176,45 @@ func c15ReadFull(conn net.Conn, buf []byte, chunk int) (int, error) {
 		}
 	}
 	return got, nil
+}
+
+// c15Scripted: a server that does not wait for the replies - both prompts and its payload leave in one
+// write, so the payload is coalesced with the last login line in the dialler's login reader.
+func c15Scripted(sc c15Scn, o *c15Obs) func() {
+	return func() {
+		*o = c15Obs{}
+		ps := c15Payload(sc.PayloadS)
+		seg, _ := c15Seg(sc.Seg, 0)
+		var serverConn *vnet.TCPConn
+		vnet.DialHook[c15Addr] = func(cl, sv *vnet.TCPConn) error {
+			cl.SetReadSeg(seg)
+			serverConn = sv
+			return nil
+		}
+		vs.GoNamed("scripted-server", false, func() {
+			vs.WaitUntil("connection", func() bool { return serverConn != nil })
+			serverConn.Write(append([]byte("Callsign :\rPassword :\r"), ps...))
+			vs.WaitUntil("forever", func() bool { return false })
+		})
+		vs.GoNamed("client", true, func() {
+			conn, err := telnet.DialTimeout(c15Addr, "N0CALL", "pw", 400*time.Millisecond)
+			o.dialErr = err
+			o.returned = true
+			if err != nil {
+				o.clientDone = true
+				return
+			}
+			buf := make([]byte, len(ps))
+			conn.SetReadDeadline(vtime.Now().Add(5 * time.Second))
+			n, err := c15ReadFull(conn, buf, sc.Read)
+			o.clientGot = buf[:n]
+			if err != nil && len(ps) > 0 {
+				o.postErr = "client read: " + err.Error()
+			}
+			o.clientDone = true
+		})
+		vs.WaitUntil("client done", func() bool { return o.clientDone })
+	}
 }
 
 // c15Two: two sessions overlap on one listener. The first accepted connection is read only after the
@@ -341,6 +384,10 @@ func c15Deadline(sc c15Scn, o *c15Obs) func() {
 }
 
 func (sc c15Scn) describe() string {
+	if sc.Kind == "scripted-stream" {
+		_, seg := c15Seg(sc.Seg, 0)
+		return fmt.Sprintf("scripted server sending both prompts and payload %d in one write, seg=%s readChunk=%d", sc.PayloadS, seg, sc.Read)
+	}
 	if sc.Kind == "two-sessions" {
 		_, seg := c15Seg(sc.Seg, 0)
 		return fmt.Sprintf("two overlapping sessions on one listener, payload %d seg=%s readChunk=%d", sc.PayloadC, seg, sc.Read)
@@ -367,6 +414,18 @@ func c15Judge(sc c15Scn, o *c15Obs, res *vs.Result) (string, string) {
 		// (no deadline survives that) - such schedules are judged for "never returns" and panics only
 		if o.dialReturned > T && !res.TimerFirstTaken() {
 			return "dial-returns-late|" + c15Servers[sc.Server], fmt.Sprintf("returned at %v, deadline %v", o.dialReturned, T)
+		}
+		return "", ""
+	}
+	if sc.Kind == "scripted-stream" {
+		ps := c15Payload(sc.PayloadS)
+		switch {
+		case o.dialErr != nil:
+			return "login-fails|scripted-server", fmt.Sprint(o.dialErr)
+		case res.Outcome != "done":
+			return "payload-lost|client-side", fmt.Sprintf("%s: %+v", res.Outcome, res.Blocked)
+		case !bytes.Equal(o.clientGot, ps):
+			return "payload-altered|client-side", fmt.Sprintf("client read %q (%s), the server sent %q right behind the password prompt", core.Trunc(string(o.clientGot), 60), o.postErr, core.Trunc(string(ps), 60))
 		}
 		return "", ""
 	}
@@ -422,6 +481,9 @@ func C15(args []string) {
 		if sc.Kind == "two-sessions" {
 			return c15Two(sc, &o)
 		}
+		if sc.Kind == "scripted-stream" {
+			return c15Scripted(sc, &o)
+		}
 		return c15Deadline(sc, &o)
 	}
 	if p := replayPath(args); p != "" {
@@ -448,6 +510,14 @@ func C15(args []string) {
 			}
 		}
 	}
+	// payloads that begin with line terminators / white space, coalesced with the last login line or not
+	for _, pl := range [][2]int{{4, 4}, {5, 5}, {4, 2}, {2, 5}} {
+		for _, seg := range []int{0, 1, 3} {
+			for _, ci := range []int{0, 1} {
+				scns = append(scns, c15Scn{Kind: "stream", Call: ci, PayloadC: pl[0], PayloadS: pl[1], Seg: seg, Via: ci % 2})
+			}
+		}
+	}
 	for cut := 1; cut <= 40; cut++ {
 		scns = append(scns, c15Scn{Kind: "stream", Call: 0, PayloadC: 2, PayloadS: 2, Seg: 3 + cut}, c15Scn{Kind: "stream", Call: 1, PayloadC: 1, PayloadS: 3, Seg: 3 + cut, Via: 1})
 	}
@@ -463,6 +533,13 @@ func C15(args []string) {
 				for _, pl := range [][2]int{{2, 2}, {3, 3}, {1, 3}} {
 					scns = append(scns, c15Scn{Kind: "stream", Call: ci, PayloadC: pl[0], PayloadS: pl[1], Seg: seg, Via: ci % 2, Read: chunk})
 				}
+			}
+		}
+	}
+	for ps := 1; ps <= 5; ps++ {
+		for _, seg := range []int{0, 1, 2, 3} {
+			for _, chunk := range []int{0, 1, 3} {
+				scns = append(scns, c15Scn{Kind: "scripted-stream", PayloadS: ps, Seg: seg, Read: chunk})
 			}
 		}
 	}
